@@ -118,6 +118,7 @@ def same_snapshot(s1, s2, allow_sorted=False):
 # ------------------------------------------------------------------------------------------------
 # output comparison
 # ------------------------------------------------------------------------------------------------
+_ELEM = __import__('re').compile(r'<[^>]*>[^<]*')
 _NUM = __import__('re').compile(r'-?\d+\.?\d*(?:e-?\d+)?')
 
 
@@ -139,12 +140,29 @@ def same_upto_sign(x, y, tol):
 SIGN_FREE = ('Spectral', 'SVD', 'GSVD', 'PCA', 'HITS')
 
 
-def same_output(x, y, tol, sign_free=False):
+def spectrum_degenerate(a, k=4):
+    """eigen / singular vectors are comparable only if the leading values (a few beyond those returned) are simple"""
+    d = np.asarray(a.todense(), dtype=float)
+    mats = [d]
+    r, c = d.sum(axis=1), d.sum(axis=0)
+    with np.errstate(divide='ignore', invalid='ignore'):
+        ri = np.where(r > 0, 1 / np.sqrt(np.abs(r)), 0.0)
+        ci = np.where(c > 0, 1 / np.sqrt(np.abs(c)), 0.0)
+    mats.append(ri[:, None] * d * ci[None, :])
+    mats.append(d - d.mean(axis=0, keepdims=True))
+    for m in mats:
+        sv = np.linalg.svd(m, compute_uv=False)
+        top = sv[:k + 1]
+        if len(top) > 1 and np.min(np.abs(np.diff(top))) < 1e-6 * max(1.0, top[0]):
+            return True
+    return False
+
+
+def same_output(x, y, tol, sign_free=False, degenerate=False):
     if sign_free and isinstance(x, dict) and isinstance(y, dict):
         if x.keys() != y.keys():
             return False
         # eigen / singular vectors are defined up to sign only when the values are simple
-        degenerate = False
         for vk in ('eigenvalues_', 'singular_values_'):
             v = x.get(vk)
             if v is not None and len(np.atleast_1d(v)) > 1:
@@ -163,7 +181,10 @@ def same_output(x, y, tol, sign_free=False):
                 return False
         return True
     if isinstance(x, str) and isinstance(y, str) and x.startswith('<svg'):
-        return _svg_norm(x) == _svg_norm(y)
+        # the same elements, whatever the order the stored edges were visited in
+        ex = sorted(_ELEM.findall(_svg_norm(x)))
+        ey = sorted(_ELEM.findall(_svg_norm(y)))
+        return ex == ey
     if x is None or y is None:
         return x is None and y is None
     if sparse.issparse(x) or sparse.issparse(y):
@@ -233,17 +254,17 @@ def _entries():
     est('Betweenness', lambda: ranking.Betweenness(), 'und', 5e-5)
     # clustering
     for mod in ('dugue', 'newman', 'potts'):
-        est('Louvain(%s)' % mod, lambda mod=mod: clustering.Louvain(modularity=mod, shuffle_nodes=False), 'und', 5e-5)
-        est('Leiden(%s)' % mod, lambda mod=mod: clustering.Leiden(modularity=mod, shuffle_nodes=False), 'und', 5e-5)
-    est('Louvain(directed)', lambda: clustering.Louvain(shuffle_nodes=False), 'dir', 5e-5)
-    est('Louvain(bipartite)', lambda: clustering.Louvain(shuffle_nodes=False), 'bip', 5e-5)
+        est('Louvain(%s)' % mod, lambda mod=mod: clustering.Louvain(modularity=mod, shuffle_nodes=False, random_state=0), 'und', 5e-5)
+        est('Leiden(%s)' % mod, lambda mod=mod: clustering.Leiden(modularity=mod, shuffle_nodes=False, random_state=0), 'und', 5e-5)
+    est('Louvain(directed)', lambda: clustering.Louvain(shuffle_nodes=False, random_state=0), 'dir', 5e-5)
+    est('Louvain(bipartite)', lambda: clustering.Louvain(shuffle_nodes=False, random_state=0), 'bip', 5e-5)
     est('PropagationClustering', lambda: clustering.PropagationClustering(), 'und', 5e-5)
     est('KCenters', lambda: clustering.KCenters(n_clusters=2, center_position='row'), 'und', 5e-5)
     fun('get_modularity', lambda m, aux: clustering.get_modularity(m, aux['partition']), 'dir', 1e-10, 'all')
     # hierarchy
     est('Paris', lambda: hierarchy.Paris(), 'und', 1e-8)
-    est('LouvainHierarchy', lambda: hierarchy.LouvainHierarchy(shuffle_nodes=False), 'und', 5e-5)
-    est('LouvainIteration', lambda: hierarchy.LouvainIteration(shuffle_nodes=False), 'und', 5e-5)
+    est('LouvainHierarchy', lambda: hierarchy.LouvainHierarchy(shuffle_nodes=False, random_state=0), 'und', 5e-5)
+    est('LouvainIteration', lambda: hierarchy.LouvainIteration(shuffle_nodes=False, random_state=0), 'und', 5e-5)
     fun('dasgupta_cost', lambda m, aux: hierarchy.dasgupta_cost(m, aux['dendrogram']), 'und', 1e-9)
     fun('tree_sampling_divergence', lambda m, aux: hierarchy.tree_sampling_divergence(m, aux['dendrogram']), 'und', 1e-9)
     # embedding
@@ -252,7 +273,7 @@ def _entries():
     est('GSVD', lambda: embedding.GSVD(2), 'bip', 1e-6)
     est('PCA', lambda: embedding.PCA(2), 'bip', 1e-6)
     est('RandomProjection', lambda: embedding.RandomProjection(2, random_state=3), 'und', 1e-8)
-    est('LouvainEmbedding', lambda: embedding.LouvainEmbedding(shuffle_nodes=False), 'bip', 5e-5, policy='csr')
+    est('LouvainEmbedding', lambda: embedding.LouvainEmbedding(shuffle_nodes=False, random_state=0), 'bip', 5e-5, policy='csr')
     est('Spring', lambda: embedding.Spring(2, n_iter=5), 'und', 1e-6, {'position_init': 'position'})
     est('ForceAtlas', lambda: embedding.ForceAtlas(2, n_iter=5), 'und', 1e-6, {'pos_init': 'position'})
     # classification / regression / linkpred
@@ -386,6 +407,7 @@ def relation_cases(ctx, per_entry, sub=None, only=None):
                     ref_err = None
                 except Exception as e:  # noqa
                     ref, ref_err = None, type(e).__name__ + ': ' + str(e)[:100]
+            degen = name.startswith(SIGN_FREE) and spectrum_degenerate(a)
             gdesc = {'shape': list(a.shape), 'dense': a.toarray().tolist()}
             auxd = {k: (v.tolist() if hasattr(v, 'tolist') else v) for k, v in aux.items()}
             for rname, rep in representations(a, rng, policy).items():
@@ -419,7 +441,7 @@ def relation_cases(ctx, per_entry, sub=None, only=None):
                         tgt.spec_fail(dict(sig, clause='format'), desc, {'why': 'raises on one representation only',
                                                                          'reference(csr float)': ref_err, rname: err})
                     continue
-                if not same_output(ref, out, tol, sign_free=name.startswith(SIGN_FREE)):
+                if not same_output(ref, out, tol, sign_free=name.startswith(SIGN_FREE), degenerate=degen):
                     tgt.spec_fail(dict(sig, clause='format'), desc, {'why': 'output differs from the CSR float reference',
                                                                      'which': _first_diff(ref, out, tol)})
 
